@@ -214,6 +214,12 @@ def run_gjk_nesterov_accelerated(
         diff = ray_len - alpha
         cv_check_passed = (diff - tolerance * ray_len) <= 0
 
+        # A support point that is already a vertex of the simplex cannot
+        # improve the estimate and would make the simplex degenerate.
+        for j in range(simplex_len - 1):
+            if np.all(simplex[j] == support_point):
+                cv_check_passed = True
+
         if i > 0 and cv_check_passed:
             simplex_len -= 1
             if use_nesterov_acceleration:
